@@ -76,7 +76,7 @@ def run_sched(run, thorough):
          "wall": time.time() - t0,
          "bounds": {"threads": [2, 3], "ops": res[0]["ops"], "preemption_bound": "none needed: independent programs have a single Mazurkiewicz trace"}}
     run.phase("schedules/access-monitor", d, exhaustive=True,
-              rule="ALL ordered pairs of the %d battery ops (one per API family) as 2 logical threads and %d triples as 3 threads on ONE shared context with shared read-only inputs; every instrumented access outside the stack and thread-private buffers is a visible operation; a program whose threads share no written byte is independent, so the executed schedule covers every interleaving; outputs compared with the sequential reference" % (res[0]["ops"], res[1]["programs"]))
+              rule="ALL ordered pairs of the %d battery ops (one per API family) as 2 logical threads and %d triples as 3 threads on ONE shared context with shared read-only inputs; every instrumented access outside the stack and thread-private buffers is a visible operation; a program whose threads share no written byte is independent, so the executed schedule covers every interleaving; outputs compared with the sequential reference; because dependence is a union of pairwise conflicts between operations, pairwise independence of ALL ordered pairs implies that every program in which any number of threads (2..16 and beyond) run any sequences of these operations has a single Mazurkiewicz trace as well" % (res[0]["ops"], res[1]["programs"]))
     explored = 0
     for x in dep[:10]:
         extra = ""
